@@ -81,6 +81,7 @@ TMutate ==
      /\ Check("mutate: targets have the weights of the network they shadow right after the mutation",
               \A n \in Nets : Shape.shadow[n] # 0 => (v.w[n] = v.w[Shape.shadow[n]] \/ (k = "none" /\ v.w[n] = p.w[n])))
      /\ Check("mutate: all networks trained alongside the policy receive the architecture change", k \in {"arch", "act"} => ArchAllOrNone(p, v))
+     /\ Check("mutate: networks with the same layer configuration before the mutation have the same one afterwards (same change as the policy)", SameChange(p, v))
      /\ Check("mutate: hyperparameters change only for kind hp, and exactly one of them",
               (k # "hp" => v.hp = p.hp) /\ (k = "hp" => \A g \in 1..H : g # h => v.hp[g] = p.hp[g]))
      /\ Check("mutate: architectures change only for kinds arch / act", k \notin {"arch", "act"} => v.arch = p.arch)
